@@ -100,9 +100,25 @@ def run(chk):
                 dec_lines += ['certreqdec %s %s' % (w, m[3:]), 'certreqdec %s %s' % (w, m[3:] + framegen.rnd_bytes(rng, 3).hex())]
             elif l.startswith('certstenc') and m.startswith('OK '):
                 dec_lines += ['certstdec ' + m[3:], 'certstdec ' + m[3:] + '0b000000']
-        m2 = common.run_model(dec_lines)
-        i2 = [impl.impl_line(l) for l in dec_lines]
-        for l, m, i in [(l, m, i) for l, m, i in zip(dec_lines, m2, i2) if m != i][:5]:
+        # SSL 2.0 records over the whole 15-bit length of the two-byte header: server hellos with certificates of up to ~32 KiB
+        # encoded by the specification, wrapped in a record by the specification, parsed by the implementation
+        sh = ['ssl2shenc 0 1 %s 65664 %s' % (bytes(i % 253 for i in range(L)).hex(), framegen.rnd_bytes(rng, 16).hex())
+              for L in (100, 16000, 16352, 16353, 17000, 30000, 32730)]
+        msgs = [m[3:] for m in common.run_model(sh) if m.startswith('OK ')]
+        recs = common.run_model(['ssl2recenc 4 ' + m for m in msgs])
+        for m, r in zip(msgs, recs):
+            if not r.startswith('OK '):
+                continue
+            i = impl.impl_line('pssl2 ' + r[3:])
+            want = 'OK 4 %s n=%d' % (m, len(r[3:]) // 2)
+            dec_lines.append('ssl2recenc 4 <%d bytes>' % (len(m) // 2))
+            if i != want:
+                chk.violation('a conformant SSL 2.0 record of %d bytes (two-byte header %s) is parsed as %s' % (len(r[3:]) // 2, r[3:7], i[:80]),
+                              {'cmd': 'pssl2 ' + r[3:], 'impl': i[:200], 'spec': want[:200], 'kind': 'ssl2-record'}, None, True)
+        dec_lines2 = [l for l in dec_lines if not l.startswith('ssl2recenc')]
+        m2 = common.run_model(dec_lines2)
+        i2 = [impl.impl_line(l) for l in dec_lines2]
+        for l, m, i in [(l, m, i) for l, m, i in zip(dec_lines2, m2, i2) if m != i][:5]:
             chk.violation('parsing an RFC-conformant client hello / certificate request / certificate status does not recover the encoded fields: implementation %s, specification %s' % (i[:160], m[:160]),
                           {'cmd': l, 'impl': i, 'spec': m}, None, True)
     else:
@@ -131,6 +147,11 @@ def replay(path):
         print(json.dumps(r, indent=1)[:3000])
         return 1
     o = impl.impl_line(r['cmd'])
+    if r.get('kind') == 'ssl2-record':
+        print('%s...\n implementation: %s\n specification:  %s' % (r['cmd'][:60], o[:120], r['spec'][:120]))
+        ok = o[:200] == r['spec']
+        print('replay: property %s' % ('holds on this input' if ok else 'FAILS on this input'))
+        return 0 if ok else 1
     spec = common.run_model([r['cmd']])[0] if common.build_runner().ok else r.get('spec')
     print('%s\n implementation: %s\n specification:  %s' % (r['cmd'][:200], o[:200], spec[:200]))
     ok = (o == spec) or (spec == 'NONE' and not o.startswith('OK'))
